@@ -875,6 +875,16 @@ Lemma pool_cases (t : T) (P : N -> Object value -> Prop) :
   (forall n o, nth_error (t_pool t) n = Some o -> P (N.of_nat n) o) -> forall i o, tget t i = Some o -> P i o.
 Proof. intros H i o Hg. unfold TreeSpec.get in Hg. specialize (H _ _ Hg). rewrite N2Nat.id in H. exact H. Qed.
 
+Definition mex_dir_ok (d : N) (dobj : Object value) : Prop :=
+  o_opcode dobj = aml_pOpScope -> o_tableHandle dobj = 1 ->
+  name_lead (o_name dobj) = false /\
+  exists n c no co tbl sl,
+    kids mex_ghost d = [n; c] /\ kids mex_ghost n = [] /\
+    tget mex_tree n = Some no /\ o_opcode no <> aml_pOpIntScopeBlock /\ o_opcode no <> aml_pOpScope /\
+    o_value no = Some (VBytes tbl sl) /\
+    (forall s0 bytes, p_tables s0 = [[0x5f; 0x53; 0x42; 0x5f]] -> slice_bytes s0 tbl sl = Ok bytes -> good_path bytes) /\
+    tget mex_tree c = Some co /\ o_opcode co = aml_pOpIntScopeBlock.
+
 Lemma merge_hyps_example :
   exists (s : pstate) (g : ghost) (x : N),
     R (p_tree s) g /\ info_valid (p_tree s) /\ pool_ok (p_tables s) (p_tree s) /\
@@ -899,23 +909,25 @@ Proof.
     do 6 (destruct n as [|n]; [vm_compute in Hn; inversion Hn; subst o; intros _; vm_compute; discriminate|]).
     vm_compute in Hn. destruct n; discriminate. }
   split.
-  { unfold pool_ok. repeat constructor; try exact I.
-    all: try (vm_compute; exact I).
-    exists [0x5f; 0x53; 0x42; 0x5f]. split; [reflexivity|]. right. exists 0. split; [reflexivity|]. vm_compute. discriminate. }
+  { unfold pool_ok. rewrite Forall_forall. intros o Hin. destruct (In_nth_error _ _ Hin) as (n & Hn).
+    do 6 (destruct n as [|n]; [vm_compute in Hn; inversion Hn; subst o; unfold value_ok; cbn [o_value];
+      first [exact I | exists [0x5f; 0x53; 0x42; 0x5f]; split; [reflexivity|]; right; exists 0; split; [reflexivity|]; vm_compute; discriminate]|]).
+    vm_compute in Hn. destruct n; discriminate. }
   split; [split; [vm_compute; reflexivity|vm_compute; intuition discriminate]|].
   split; [apply groot_chk; vm_compute; reflexivity|].
   split; [eexists; split; [vm_compute; reflexivity|reflexivity]|].
   split.
-  { apply (pool_cases mex_tree (fun d dobj => o_opcode dobj = aml_pOpScope -> o_tableHandle dobj = 1 -> _)). intros n o Hn.
-    do 6 (destruct n as [|n]; [vm_compute in Hn; inversion Hn; subst o; intros Hop Hh; try (vm_compute in Hop; discriminate)|]).
-    2:{ vm_compute in Hn. destruct n; discriminate. }
-    split; [reflexivity|].
-    eexists 3, 4, _, _, 0, (mkSlice (Some 0) 4).
-    split; [vm_compute; reflexivity|]. split; [vm_compute; reflexivity|].
-    split; [vm_compute; reflexivity|]. split; [vm_compute; discriminate|]. split; [vm_compute; discriminate|].
-    split; [reflexivity|]. split.
-    - intros s0 bytes Ht Hb. unfold slice_bytes in Hb. rewrite Ht in Hb. vm_compute in Hb. inversion Hb. left. reflexivity.
-    - split; [vm_compute; reflexivity|reflexivity]. }
+  { apply (pool_cases mex_tree mex_dir_ok). intros n o Hn. unfold mex_dir_ok.
+    do 6 (destruct n as [|n]; [vm_compute in Hn; inversion Hn; subst o; intros Hop Hh;
+      first [ vm_compute in Hop; discriminate
+            | split; [reflexivity|];
+              eexists 3, 4, _, _, 0, (mkSlice (Some 0) 4);
+              split; [vm_compute; reflexivity|]; split; [vm_compute; reflexivity|];
+              split; [vm_compute; reflexivity|]; split; [vm_compute; discriminate|]; split; [vm_compute; discriminate|];
+              split; [reflexivity|]; split;
+              [ intros s0 bytes Ht Hb; unfold slice_bytes in Hb; rewrite Ht in Hb; vm_compute in Hb; inversion Hb; left; reflexivity
+              | split; [vm_compute; reflexivity|reflexivity] ] ]|]).
+    vm_compute in Hn. destruct n; discriminate. }
   split; [split; [vm_compute; reflexivity|vm_compute; intuition discriminate]|].
   split; [eexists; split; [vm_compute; reflexivity|split; reflexivity]|].
   vm_compute. split; reflexivity.
